@@ -103,6 +103,8 @@ def opsC17 : List String → Option String
       | none => "none"
       | some (.role a) => "role:" ++ hexOut a
       | some (.user l d) => "user:" ++ hexOut l ++ "@" ++ hexOut d)
+  | ["p.quota", en, lim, usage, sz] =>
+    some (boolS (Policy.quotaImpl ⟨[], false, 0, 0, en = "1", lim.toNat!, []⟩ usage.toNat! sz.toNat!))
   | ["p.size", mx, sz] => some (boolS (Policy.sizeOk ⟨[], false, 0, mx.toNat!, false, 0, []⟩ sz.toNat!))
   | _ => none
 
